@@ -1200,6 +1200,13 @@ class Context:
 
         plugins = self._get_plugins(targets, run_id, chunk_number=chunk_number)
 
+        # The data types the user asked for: several targets of one kind are
+        # requested through a temporary merge plugin that depends on them.
+        requested = set(targets)
+        for t in targets:
+            if t.startswith(TEMP_DATA_TYPE_PREFIX):
+                requested |= set(plugins[t].depends_on)
+
         allow_superruns = [plugins[target_i].allow_superrun for target_i in targets]
         if is_superrun and sum(allow_superruns) not in [0, len(targets)]:
             raise ValueError(
@@ -1353,7 +1360,7 @@ class Context:
 
             # Now we should check whether we meet the saving requirements.
             current_plugin_to_savers = [target_i]
-            if not self._target_should_be_saved(target_plugin, target_i, targets, save):
+            if not self._target_should_be_saved(target_plugin, target_i, requested, save):
                 if target_plugin.multi_output:
                     # In case the plugin has more than a single provides we also have to check
                     # whether any of the other data_types should be stored. Hence only remove
@@ -1401,7 +1408,7 @@ class Context:
                     continue
 
                 if not self._target_should_be_saved(
-                    target_plugin, d_to_save, targets, save
+                    target_plugin, d_to_save, requested, save
                 ) or savers.get(d_to_save):
                     # This multi-output plugin was scanned before
                     # let's not create doubled savers or store data_types we do not want to.
